@@ -20,8 +20,14 @@ directory is the scenario's cwd (pypyr fixes config.cwd at import). Two kinds of
   compared with what the same look-up yields in a cold process (the property text restated in
   `seq_spec`); every look-up, clean or stale, is compared with the model, sys.path included.
 
-Both sides are compared on: the chosen file / the trail, the error text (searched places),
-the directories appended to sys.path. Independent monitors restate the property text in Python.
+run scenarios also cover: chains of 3-6 hops (directed and random: the parent of hop i is the directory hop i-1
+was FOUND in), several root pipelines one after the other in one process, symlinked pipeline files and directories
+(the children's parent and the sys.path entry are the TARGET's directory), `..` in child names and parents, py_dir
+(runner argument / pype pyDir; Path and str), and the SAME step-module name next to several pipeline files, in the
+cwd under py_dir=cwd and in an interpreter sys.path entry — the trail shows WHICH module file served each pipeline.
+
+Both sides are compared on: the chosen file / the trail (module directory | pipeline file), the error text (searched
+places), the directories appended to sys.path. Independent monitors restate the property text in Python.
 A subprocess that does not return is an observation (judged by the monitors), not a crash.
 """
 from __future__ import annotations
@@ -42,13 +48,17 @@ LEAN_MODULES = ['Props.C19']
 TRUSTED = ['harness/props/c19.py (layout builder, path canonicaliser R/B, monitors)',
            'harness/impl_c19_runner.py (subprocess runner)', 'pathlib / os file-system semantics']
 ASSUMPTIONS = [
-    'directories are absolute, normalised and symlink-free (Path.resolve is the identity on them, str() of one determines it: '
-    'the model\'s pipeline-cache key keeps the component list where the code keeps the string); names have no . segments; '
-    '.. segments only in seq scenarios, where the driver\'s file-system predicate walks them like the OS',
+    'paths / run scenarios: any tree with symlinked files and directories (absolute targets, no loops) and `..` in names, parents '
+    'and py_dir; the cwd and the built-in directory themselves are real paths (config.cwd = Path.cwd()); names have no `.` or empty '
+    'segments; py_dir is absolute (a relative py_dir goes to sys.path as the relative string it is); a relative `parent` is modelled '
+    '(paths scenarios, also after os.chdir: it is read against the OS cwd of the moment, not config.cwd)',
+    'seq scenarios (warm caches): normalised symlink-free directories (the pipeline-cache key keeps the component list where the code '
+    'keeps str(parent)); `..` only in names',
     'the built-in location can only hold the names pypyr ships (donothing, echo, …): /repo is read-only, so '
     '"built-in exists" cases use the name donothing and nested names never exist there',
     'only the truthiness of resolveFromParent is used (a string "False" is truthy, as in get_arguments)',
-    'sys.path is not edited by anyone else between loads',
+    'sys.path / sys.modules are not edited by anyone else between loads; step module FILES exist before the process starts (the import '
+    'system caches directory listings); the import model is top-level modules only (m.py), first sys.path hit, sys.modules first',
 ]
 
 RUNNER = Path(__file__).resolve().parent.parent / 'impl_c19_runner.py'
@@ -72,9 +82,17 @@ def yaml_scalar(v):
     return json.dumps(v)
 
 
+def pype_keys(hop):
+    """the keys of the pype step that invokes this hop (besides `name`)"""
+    keys = dict(hop['pype'])
+    if hop.get('pyDir') is not None:
+        keys['pyDir'] = hop['pyDir']
+    return keys
+
+
 def pype_yaml(root, hop, indent):
     lines = [f'{indent}name: {yaml_scalar(conc(root, hop["name"]))}']
-    for k, v in hop['pype'].items():
+    for k, v in pype_keys(hop).items():
         lines.append(f'{indent}{k}: {yaml_scalar(conc(root, v))}')
     return '\n'.join(lines)
 
@@ -83,19 +101,32 @@ def stem_of(name):
     return name.rsplit('/', 1)[-1]
 
 
+SHARED = 'vshared'
+
+
+def mod_text(dirrel):
+    return f"import vtrail\n\ndef run_step(context):\n    vtrail.T.append({dirrel!r} + '|' + context['vfile'])\n"
+
+
 def build_run_tree(root, case):
-    """Write the layout of a run scenario under `root`."""
-    hops = case['hops']
+    """Write the layout of a run scenario under `root`: every pipeline file starts with a step whose module lives
+    NEXT TO it (named after the directory — or, with case['shared'], `vshared` in EVERY directory) and records
+    '<directory of the module file>|<pipeline file>'; symlinks of case['links'] are made last."""
+    runs = runs_of(case)
     lib = root / 'lib'
     lib.mkdir()
     (lib / 'vtrail.py').write_text('T = []\n')
     (lib / 'vcustomstep.py').write_text(
         "import vtrail\n\ndef run_step(context):\n    vtrail.T.append(context['vfile'])\n")
+    for m in case.get('libmods', []):
+        (lib / f'{m}.py').write_text(mod_text('lib'))
     table = {}
-    for i, h in enumerate(hops[:-1]):
-        nxt = hops[i + 1]
-        table[conc(root, h['name'])] = {'name': conc(root, nxt['name']),
-                                        **{k: conc(root, v) for k, v in nxt['pype'].items()}}
+    for run in runs:
+        hops = run['hops']
+        for i, h in enumerate(hops[:-1]):
+            nxt = hops[i + 1]
+            table[conc(root, h['name'])] = {'name': conc(root, nxt['name']),
+                                            **{k: conc(root, v) for k, v in pype_keys(nxt).items()}}
     (lib / 'vchain.json').write_text(json.dumps(table))
     for lname, nc in (('vloader', False), ('vloader_nc', True)):
         (lib / f'{lname}.py').write_text(f'''import json, pathlib
@@ -115,20 +146,33 @@ def get_pipeline_definition(pipeline_name, parent):
 ''')
     for d in ('w', 'w/pipelines', 'e', 'e2'):
         (root / d).mkdir(parents=True, exist_ok=True)
+    for d in case.get('mkdirs', []):
+        (root / d).mkdir(parents=True, exist_ok=True)
     for rel in case['files']:
         f = root / rel
         f.parent.mkdir(parents=True, exist_ok=True)
-        dirrel = str(Path(rel).parent)
-        dirid = dirrel.replace('/', '_')
-        mod = f.parent / f'vmod_{dirid}.py'
+        dirrel = str(Path(rel).parent) if '/' in rel else ''
+        dirid = dirrel.replace('/', '_') or 'root'
+        modname = SHARED if case.get('shared') else f'vmod_{dirid}'
+        mod = f.parent / f'{modname}.py'
         if not mod.exists():
-            mod.write_text(f"import vtrail\n\ndef run_step(context):\n    vtrail.T.append({dirrel!r} + '|' + context['vfile'])\n")
+            mod.write_text(mod_text(dirrel))
         stem = f.stem
-        idx = next((i for i, h in enumerate(hops) if stem_of(h['name']) == stem), None)
-        body = f"steps:\n  - name: vmod_{dirid}\n    in:\n      vfile: {yaml_scalar(rel)}\n"
-        if idx is not None and idx + 1 < len(hops):
-            body += "  - name: pypyr.steps.pype\n    in:\n      pype:\n" + pype_yaml(root, hops[idx + 1], '        ') + '\n'
+        at = next(((run, i) for run in runs for i, h in enumerate(run['hops']) if stem_of(h['name']) == stem), None)
+        body = f"steps:\n  - name: {modname}\n    in:\n      vfile: {yaml_scalar(rel)}\n"
+        if at is not None and at[1] + 1 < len(at[0]['hops']):
+            body += "  - name: pypyr.steps.pype\n    in:\n      pype:\n" + pype_yaml(root, at[0]['hops'][at[1] + 1], '        ') + '\n'
         f.write_text(body)
+    for dirrel, names in (case.get('modules') or {}).items():
+        (root / dirrel).mkdir(parents=True, exist_ok=True)
+        for m in names:
+            mf = root / dirrel / f'{m}.py'
+            if not mf.exists():
+                mf.write_text(mod_text(dirrel))
+    for link, target in case.get('links', []):
+        lp = root / link
+        lp.parent.mkdir(parents=True, exist_ok=True)
+        os.symlink(root / target, lp)
 
 
 def run_subprocess(root, scenario, repo, timeout=120):
@@ -163,36 +207,100 @@ class Canon:
 
 
 def fs_of(root, canon, extra_builtin=True):
+    """the REAL files and directories below root (symlinks are not followed and not listed)"""
     files, dirs = [], ['/B']
     for dp, dn, fn in os.walk(root):
+        dn[:] = [d for d in dn if not os.path.islink(os.path.join(dp, d))]
         dirs.append(canon(dp))
         for f in fn:
-            if f.endswith('.yaml'):
+            if f.endswith('.yaml') and not os.path.islink(os.path.join(dp, f)):
                 files.append(canon(os.path.join(dp, f)))
     files += [f'/B/{n}.yaml' for n in BUILTIN_NAMES]
     return sorted(files), sorted(dirs)
+
+
+def mods_of(root, canon):
+    """[[dir, [top-level module names]]] below root"""
+    out = []
+    for dp, dn, fn in os.walk(root):
+        dn[:] = [d for d in dn if not os.path.islink(os.path.join(dp, d))]
+        ms = sorted(f[:-3] for f in fn if f.endswith('.py'))
+        if ms:
+            out.append([canon(dp), ms])
+    return sorted(out)
 
 
 # ---------------------------------------------------------------------------------------------
 # the property text restated (monitor side; does not use the model)
 # ---------------------------------------------------------------------------------------------
 
-def spec_search(name, parent, dirs_existing):
+class AbsFs:
+    """The abstract tree the monitors reason about: REAL files and directories plus symlinks (link -> absolute
+    target). `walk` answers like the OS (None = the OS fails), `resolve` like Path.resolve() (non-strict)."""
+
+    def __init__(self, files, dirs, links=None):
+        self.files, self.dirs, self.links = set(files), set(dirs) | {'/'}, dict(links or {})
+
+    def _go(self, path, strict):
+        todo = [s for s in path.split('/') if s]
+        acc, fuel = [], 400
+        while todo:
+            fuel -= 1
+            if fuel < 0:
+                return None
+            seg = todo.pop(0)
+            if seg == '..':
+                if strict and acc and ('/' + '/'.join(acc)) not in self.dirs:
+                    return None
+                acc = acc[:-1]
+                continue
+            cur = '/' + '/'.join(acc + [seg])
+            if cur in self.links:
+                todo = [s for s in self.links[cur].split('/') if s] + todo
+                acc = []
+            else:
+                acc.append(seg)
+        return '/' + '/'.join(acc)
+
+    def walk(self, path):
+        return self._go(path, True)
+
+    def resolve(self, path):
+        return self._go(path, False)
+
+    def is_file(self, path):
+        q = self.walk(path)
+        return q if q is not None and q in self.files else None
+
+    def is_dir(self, path):
+        q = self.walk(path)
+        return q is not None and q in self.dirs
+
+
+def as_fs(files, dirs_existing, links=None):
+    return files if isinstance(files, AbsFs) else AbsFs(files, dirs_existing, links)
+
+
+def spec_search(name, parent, fs):
     """-> (candidate files in order, searched dirs or None for absolute names)"""
     if name.startswith('/'):
         return [name + '.yaml'], None
     searched = []
-    if parent and parent in dirs_existing and parent != CWD:
-        searched.append(parent)
+    if parent:
+        rp = fs.resolve(parent)          # "the directory of the calling parent pipeline": the real one
+        if rp in fs.dirs and rp != CWD:
+            searched.append(rp)
     searched += [CWD, CWD + '/pipelines', '/B']
     return [f'{d}/{name}.yaml' for d in searched], searched
 
 
-def spec_resolve(name, parent, files, dirs_existing):
-    cands, searched = spec_search(name, parent, dirs_existing)
+def spec_resolve(name, parent, files, dirs_existing=None, links=None):
+    fs = as_fs(files, dirs_existing, links)
+    cands, searched = spec_search(name, parent, fs)
     for c in cands:
-        if c in files:
-            return {'ok': c}, searched
+        q = fs.is_file(c)
+        if q:
+            return {'ok': q}, searched
     return {'err': 'PipelineNotFoundError'}, searched
 
 
@@ -218,33 +326,59 @@ def spec_child(pype, caller):
     return loader, (caller['parent'] if rfp and loader == caller['loader'] else None)
 
 
-def spec_chain(case, files, dirs_existing):
-    """Expected trail / error / sys.path additions of a run scenario, from the property text."""
-    trail, added = [], []
+def runs_of(case):
+    """A run scenario is a list of root pipelines run one after the other in ONE process (usually one)."""
+    if 'runs' in case:
+        return case['runs']
+    return [{'hops': case['hops'], 'rootLoader': case.get('rootLoader')}]
+
+
+def eff_runs(case):
+    """… with what the command line adds: `--dir` defaults to the cwd (pypyr/cli.py: default=config.cwd)"""
+    out = []
+    for r in runs_of(case):
+        if r.get('via') == 'cli' and r['hops'][0].get('pyDir') is None:
+            r = dict(r, hops=[dict(r['hops'][0], pyDir=CWD)] + list(r['hops'][1:]))
+        out.append(r)
+    return out
+
+
+def spec_chain(run, fs, added):
+    """Expected pipelines / error / sys.path additions of ONE root run, from the property text.
+    `added` (sys.path additions so far in this process) is extended in place."""
+    trail = []
     caller = None
-    for i, hop in enumerate(case['hops']):
+    for i, hop in enumerate(run['hops']):
         if caller is None:
-            loader, parent = case.get('rootLoader'), None
+            loader, parent = run.get('rootLoader'), None
         else:
             loader, parent = spec_child(hop['pype'], caller)
+        pd = hop.get('pyDir')
+        if pd and fs.is_dir(pd) and pd not in added:
+            added.append(pd)
         eff = loader or FILE_LOADER
         if eff == FILE_LOADER:
-            r, searched = spec_resolve(hop['name'], parent, files, dirs_existing)
+            r, searched = spec_resolve(hop['name'], parent, fs)
             if 'err' in r:
-                return {'trail': trail, 'err': 'PipelineNotFoundError', 'searched': searched, 'name': hop['name'], 'added': added}
+                return {'trail': trail, 'err': 'PipelineNotFoundError', 'searched': searched, 'name': hop['name']}
             f = r['ok']
             d = f.rsplit('/', 1)[0]
             if d not in added:
                 added.append(d)
             if d == '/B':
                 break
-            trail.append(f'{d[3:]}|{f[3:]}')
+            trail.append(f'{d[3:]}|{f[3:]}')      # the module NEXT TO the file ran, for that file
             caller = {'loader': FILE_LOADER, 'parent': d, 'cascL': True, 'cascP': True}
         else:
             trail.append(f'custom:{eff}:{hop["name"]}:{parent}')
             casc = eff != 'vloader_nc'
             caller = {'loader': eff, 'parent': parent, 'cascL': casc, 'cascP': casc}
-    return {'trail': trail, 'err': None, 'added': added}
+    return {'trail': trail, 'err': None}
+
+
+def files_of_trail(trail):
+    """which pipelines ran, whatever module file served their step"""
+    return [t if t.startswith('custom:') else t.split('|', 1)[1] for t in (trail or [])]
 
 
 # ---------------------------------------------------------------------------------------------
@@ -267,17 +401,64 @@ def path_cases():
                     for form in (('path', 'str') if parent else ('str',)):
                         out.append({'kind': 'paths', 'name': name, 'parent': parent, 'parent_form': form,
                                     'files': [s[3:] for s in sub]})
+    return out + path_cases_links()
+
+
+def path_cases_links():
+    """symlinked directories / files and `..` in names and parents, through get_pipeline_path"""
+    out = []
+    link_sets = {
+        'dir': [['ld', 't']],                       # /R/ld -> /R/t (a directory)
+        'dir-sub': [['ld', 't/sub']],               # /R/ld -> /R/t/sub: ld/.. is /R/t
+        'to-cwd': [['lw', 'w']],                    # a parent that IS the cwd under another name
+        'file': [['e/vp.yaml', 't/vp.yaml']],       # the candidate in the parent is a symlink to a file elsewhere
+        'cwd-pipelines-file': [['w/pipelines/vp.yaml', 't/sub/vp.yaml']],
+        'none': [],
+    }
+    combos = [
+        ('dir', 'vp', '/R/ld', ['t/vp.yaml', 'w/vp.yaml']), ('dir', 'sub/vp', '/R/ld', ['t/sub/vp.yaml']),
+        ('dir', '/R/ld/vp', None, ['t/vp.yaml']), ('dir', '/R/ld/sub/vp', '/R/e', ['t/sub/vp.yaml']),
+        ('dir-sub', '../vp', '/R/ld', ['t/vp.yaml', 'vp.yaml']), ('dir-sub', '/R/ld/../vp', None, ['t/vp.yaml', 'vp.yaml']),
+        ('dir-sub', 'vp', '/R/ld', ['t/sub/vp.yaml', 'w/vp.yaml']),
+        ('to-cwd', 'vp', '/R/lw', ['w/vp.yaml', 'w/pipelines/vp.yaml']), ('to-cwd', 'sub/vp', '/R/lw', ['w/pipelines/sub/vp.yaml']),
+        ('file', 'vp', '/R/e', ['t/vp.yaml', 'w/vp.yaml']), ('file', '/R/e/vp', None, ['t/vp.yaml']),
+        ('cwd-pipelines-file', 'vp', None, ['t/sub/vp.yaml']), ('cwd-pipelines-file', 'vp', '/R/e', ['t/sub/vp.yaml', 'e/vp.yaml']),
+        ('none', '../e/vp', '/R/e2', ['e/vp.yaml', 'vp.yaml']), ('none', 'sub/../vp', '/R/e', ['e/vp.yaml', 'w/vp.yaml']),
+        ('none', 'vp', '/R/e/sub/..', ['e/vp.yaml', 'w/vp.yaml']), ('none', 'vp', '/R/missing/../e', ['e/vp.yaml', 'w/vp.yaml']),
+        ('none', '../w/vp', '/R/e', ['w/vp.yaml']), ('none', '../shared/vp', '/R/e/sub', ['e/shared/vp.yaml', 'shared/vp.yaml']),
+    ]
+    # relative parents, before and after the process changed directory (config.cwd stays /R/w)
+    for chdir in (None, 'e', 'e2'):
+        for name, parent, locs in (('vp', 'sub', ['w/sub/vp.yaml', 'e/sub/vp.yaml', 'w/vp.yaml']),
+                                   ('vp', '../e', ['e/vp.yaml', 'w/vp.yaml', 'w/pipelines/vp.yaml']),
+                                   ('sub/vp', '.', ['w/sub/vp.yaml', 'e/sub/vp.yaml', 'e2/sub/vp.yaml'])):
+            if parent == '.':
+                continue           # '.' segments are outside the driver's domain
+            for k in range(len(locs) + 1):
+                for sub in itertools.combinations(locs, k):
+                    for form in ('path', 'str'):
+                        out.append({'kind': 'paths', 'name': name, 'parent': parent, 'parent_form': form,
+                                    'files': list(sub), 'chdir': chdir})
+    for lk, name, parent, locs in combos:
+        for k in range(len(locs) + 1):
+            for sub in itertools.combinations(locs, k):
+                for form in (('path', 'str') if parent else ('str',)):
+                    out.append({'kind': 'paths', 'name': name, 'parent': parent, 'parent_form': form,
+                                'files': list(sub), 'links': link_sets[lk]})
     return out
 
 
 def run_path_chunk(chunk, repo):
     root = Path(tempfile.mkdtemp(prefix='c19p')).resolve()
     try:
-        for d in ('w/pipelines', 'e/sub', 'e2', 'lib'):
+        for d in ('w/pipelines', 'e/sub', 'e2', 'lib', 't/sub'):
             (root / d).mkdir(parents=True)
+        for c in chunk:       # every directory any case of the chunk needs exists from the start: one directory set
+            for f in c['files']:
+                (root / f).parent.mkdir(parents=True, exist_ok=True)
         sc = {'kind': 'paths', 'root': str(root),
               'cases': [{'files': c['files'], 'name': conc(root, c['name']), 'parent': conc(root, c['parent']),
-                         'parent_form': c['parent_form']} for c in chunk]}
+                         'parent_form': c['parent_form'], 'links': c.get('links', []), 'chdir': c.get('chdir')} for c in chunk]}
         out = run_subprocess(root, sc, repo)
         if out.get('timeout'):
             # some case of the chunk hangs: run them one by one, the hanging ones become observations
@@ -309,9 +490,19 @@ def judge_path_case(env, res, c, files, dirs, impl):
     res.count('paths:' + ('abs' if c['name'].startswith('/') else 'nested' if '/' in c['name'] else
                            'builtin-name' if c['name'] in BUILTIN_NAMES else 'plain'))
     res.count('paths:' + ('found' if 'ok' in impl else 'not-found'))
+    links = [['/R/' + a, '/R/' + b] for a, b in c.get('links', [])]
+    if links:
+        res.count('paths:with-symlinks')
+    if '..' in c['name'] or (c['parent'] and '..' in c['parent']):
+        res.count('paths:with-dotdot')
+    os_cwd = '/R/' + c['chdir'] if c.get('chdir') else CWD
+    if c['parent'] and not c['parent'].startswith('/'):
+        res.count('paths:relative-parent' + ('-after-chdir' if c.get('chdir') else ''))
     model = env.driver.ask('resolve.path', name=c['name'], parent=c['parent'], cwd=CWD, builtin='/B',
-                           files=files, dirs=dirs)
-    want, searched = spec_resolve(c['name'], c['parent'], files, dirs)
+                           files=files, dirs=dirs, links=links, osCwd=os_cwd)
+    # a relative parent is a path of the process: it means what it means to the OS at that moment
+    parent_abs = c['parent'] if not c['parent'] or c['parent'].startswith('/') else f'{os_cwd}/{c["parent"]}'
+    want, searched = spec_resolve(c['name'], parent_abs, files, dirs, dict(links))
     sig = {'clause': 'resolve_first_existing', 'form': 'abs' if c['name'].startswith('/') else 'rel'}
     if 'ok' in want:
         if impl.get('ok') != want['ok']:
@@ -410,85 +601,302 @@ def random_depth2(rng):
     return {'kind': 'run', 'hops': hops, 'files': sorted(files), 'rootLoader': root_loader}
 
 
+def hop(name, pype=None, pyDir=None):
+    h = {'name': name, 'pype': dict(pype or {})}
+    if pyDir is not None:
+        h['pyDir'] = pyDir
+    return h
+
+
+def random_deep(rng, depth=None):
+    """a chain of 3-6 pype hops: at every hop a name form, a steering option set and a random subset of the
+    places the name could be in (the directories earlier hops can have loaded from included)"""
+    depth = depth or rng.randint(3, 6)
+    rname, rfile = rng.choice(ROOTS)
+    hops = [hop(rname)]
+    files = {rfile}
+    root_loader = None
+    if rng.random() < 0.1:
+        hops[0]['name'], root_loader, files = 'vp0', rng.choice(['vloader', 'vloader_nc']), set()
+    dirs_pool = ['e', 'w', 'w/pipelines', 'w/sub', 'e2', 'e/sub', 'w/pipelines/sub', 'e2/sub', 'e/shared']
+    for i in range(1, depth + 1):
+        nm = rng.choice([f'vp{i}', f'vp{i}', f'vp{i}', f'sub/vp{i}', f'/R/e2/vp{i}', f'../e/vp{i}', f'../shared/vp{i}',
+                         'donothing' if i == depth else f'vp{i}'])
+        opt = dict(rng.choice(PYPE_OPTIONS if rng.random() < 0.5 else [{}]))
+        pd = rng.choice([None] * 6 + ['/R/e2', '/R/missing'])
+        hops.append(hop(nm, opt, pd))
+        if nm.startswith('/'):
+            pool = [f'e2/vp{i}.yaml', f'w/vp{i}.yaml']
+        else:
+            pool = sorted({os.path.normpath(f'{d}/{nm}.yaml') for d in dirs_pool} - {f'../{x}' for x in ['']})
+            pool = [f for f in pool if not f.startswith('..')]
+        present = [f for f in pool if rng.random() < 0.3]
+        if pool and not present and rng.random() < 0.8:      # most chains go on: a not-found ends them early
+            present = [rng.choice(pool)]
+        files.update(present)
+    return {'kind': 'run', 'tag': 'deep', 'hops': hops, 'files': sorted(files), 'rootLoader': root_loader,
+            'mkdirs': ['e/sub', 'w/sub', 'e2/sub', 'w/pipelines/sub', 'e/shared']}
+
+
+def directed_deep():
+    """depth 3 and 4, every hop in a different place: the parent of hop i is the directory hop i-1 was FOUND in"""
+    out = []
+    # e -> e/sub (nested name) -> back to the cwd (resolveFromParent off) -> cwd/pipelines via fall-through -> built-in
+    out.append({'kind': 'run', 'tag': 'deep', 'rootLoader': None,
+                'hops': [hop('/R/e/vp0'), hop('sub/vp1'), hop('vp2'), hop('vp3', {'resolveFromParent': False}), hop('vp4'), hop('donothing')],
+                'files': ['e/vp0.yaml', 'e/sub/vp1.yaml', 'e/sub/vp2.yaml', 'e/vp2.yaml', 'w/vp2.yaml', 'e/sub/vp3.yaml', 'w/pipelines/vp3.yaml',
+                          'w/pipelines/vp4.yaml', 'w/vp4.yaml']})
+    # the same name at every level: each hop must take the copy next to ITS caller
+    out.append({'kind': 'run', 'tag': 'deep', 'rootLoader': None,
+                'hops': [hop('/R/e/vp0'), hop('sub/vp1'), hop('sub/vp2'), hop('vp3'), hop('vp4')],
+                'files': ['e/vp0.yaml', 'e/sub/vp1.yaml', 'e/sub/sub/vp2.yaml', 'e/sub/vp2.yaml', 'w/sub/vp2.yaml',
+                          'e/sub/sub/vp3.yaml', 'e/sub/vp3.yaml', 'e/vp3.yaml', 'w/vp3.yaml', 'e/vp4.yaml', 'w/vp4.yaml'],
+                'mkdirs': ['e/sub/sub']})
+    # not found at depth 3: the places searched start with the directory hop 2 was found in
+    out.append({'kind': 'run', 'tag': 'deep', 'rootLoader': None,
+                'hops': [hop('vp0'), hop('/R/e2/vp1'), hop('vp2'), hop('vp3'), hop('vp4')],
+                'files': ['w/pipelines/vp0.yaml', 'e2/vp1.yaml', 'e2/vp2.yaml', 'w/pipelines/vp2.yaml', 'e/vp3.yaml']})
+    # a custom loader in the middle: the file loader below it starts without a parent
+    out.append({'kind': 'run', 'tag': 'deep', 'rootLoader': None,
+                'hops': [hop('/R/e/vp0'), hop('vp1', {'loader': 'vloader'}), hop('vp2', {'loader': FILE_LOADER}), hop('vp3'), hop('vp4')],
+                'files': ['e/vp0.yaml', 'e/vp2.yaml', 'w/vp2.yaml', 'e/vp3.yaml', 'w/vp3.yaml', 'w/pipelines/vp4.yaml']})
+    # `pype: {name: ../shared/x}` from a sub-directory, then on from the shared directory
+    out.append({'kind': 'run', 'tag': 'deep', 'rootLoader': None,
+                'hops': [hop('/R/e/sub/vp0'), hop('../shared/vp1'), hop('vp2'), hop('../vp3')],
+                'files': ['e/sub/vp0.yaml', 'e/shared/vp1.yaml', 'shared/vp1.yaml', 'e/shared/vp2.yaml', 'w/vp2.yaml', 'e/vp3.yaml', 'vp3.yaml']})
+    return out
+
+
+def symlink_cases():
+    """pipeline files and directories reached through symlinks: `find_pipeline` returns path.resolve(), so the
+    children's parent and the sys.path entry are the TARGET's directory"""
+    out = []
+
+    def add(hops, files, links, **kw):
+        out.append({'kind': 'run', 'tag': 'symlink', 'rootLoader': None, 'hops': hops, 'files': files, 'links': links,
+                    'mkdirs': ['t', 't/sub', 'e/sub'] + kw.pop('mkdirs', []), **kw})
+    for child_locs in ([], ['e/vp1.yaml'], ['t/vp1.yaml'], ['e/vp1.yaml', 't/vp1.yaml'], ['e/vp1.yaml', 't/vp1.yaml', 'w/vp1.yaml'],
+                       ['w/vp1.yaml']):
+        # a symlinked pipeline FILE: /R/e/vp0.yaml -> /R/t/vp0.yaml
+        add([hop('/R/e/vp0'), hop('vp1')], ['t/vp0.yaml'] + child_locs, [['e/vp0.yaml', 't/vp0.yaml']])
+        # a symlinked DIRECTORY: /R/ld -> /R/t
+        add([hop('/R/ld/vp0'), hop('vp1')], ['t/vp0.yaml'] + child_locs, [['ld', 't']])
+        # found in the cwd through a symlink there: w/vp0.yaml -> t/vp0.yaml (plain name)
+        add([hop('vp0'), hop('vp1')], ['t/vp0.yaml'] + child_locs, [['w/vp0.yaml', 't/vp0.yaml']])
+        # cwd/pipelines itself is a symlink to /R/t
+        add([hop('vp0'), hop('vp1')], ['t/vp0.yaml'] + child_locs, [['w/pipelines2', 't']])
+    # an explicit parent that is a symlink; a parent that is the cwd under another name
+    for child_locs in (['t/vp1.yaml', 'w/vp1.yaml'], ['w/vp1.yaml'], []):
+        add([hop('/R/e/vp0'), hop('vp1', {'parent': '/R/ld'})], ['e/vp0.yaml'] + child_locs, [['ld', 't']])
+        add([hop('/R/e/vp0'), hop('vp1', {'parent': '/R/lw'})], ['e/vp0.yaml', 'w/pipelines/vp1.yaml'] + child_locs, [['lw', 'w']])
+    # `..` out of a symlinked directory is the TARGET's parent: /R/ld -> /R/t/sub, child '../vp1' is /R/t/vp1.yaml
+    for child_locs in (['t/vp1.yaml'], ['vp1.yaml'], ['t/vp1.yaml', 'vp1.yaml'], []):
+        add([hop('/R/ld/vp0'), hop('../vp1'), hop('vp2')], ['t/sub/vp0.yaml', 't/vp2.yaml', 'vp2.yaml', 'w/vp2.yaml'] + child_locs,
+            [['ld', 't/sub']])
+    # two levels of links; a chain that crosses from a linked directory into another
+    add([hop('/R/l1/vp0'), hop('vp1'), hop('vp2')], ['t/sub/vp0.yaml', 't/sub/vp1.yaml', 'e/vp1.yaml', 't/sub/vp2.yaml'],
+        [['l1', 'l2'], ['l2', 't/sub']])
+    add([hop('/R/ld/vp0'), hop('/R/e/vp1'), hop('vp2')], ['t/vp0.yaml', 'e2/vp1.yaml', 'e2/vp2.yaml', 'e/vp2.yaml', 't/vp2.yaml'],
+        [['ld', 't'], ['e/vp1.yaml', 'e2/vp1.yaml']])
+    # py_dir through a symlink
+    add([hop('/R/e/vp0', pyDir='/R/ld'), hop('vp1', pyDir='/R/e/sub/..')], ['e/vp0.yaml', 'e/vp1.yaml'], [['ld', 't']])
+    return out
+
+
+def pydir_cases():
+    """`py_dir` (pipelinerunner.run(py_dir=), the CLI's --dir which defaults to the cwd; pype's pyDir)"""
+    out = []
+    for pd in (None, '/R/w', '/R/e2', '/R/missing', '/R/e'):
+        for form in ('str', 'path'):
+            if pd is None and form == 'path':
+                continue
+            for child_pd in (None, '/R/e2', '/R/w'):
+                out.append({'kind': 'run', 'tag': 'pydir', 'runs': [{'hops': [hop('/R/e/vp0', pyDir=pd), hop('vp1', pyDir=child_pd)],
+                                                                       'rootLoader': None, 'pyDirForm': form}],
+                            'files': ['e/vp0.yaml', 'w/vp1.yaml']})
+    # the command line: --dir at its default (the cwd goes on sys.path FIRST) and given
+    for pd in (None, '/R/e2', '/R/missing'):
+        out.append({'kind': 'run', 'tag': 'pydir', 'runs': [{'hops': [hop('/R/e/vp0', pyDir=pd), hop('vp1')], 'rootLoader': None, 'via': 'cli'}],
+                    'files': ['e/vp0.yaml', 'w/vp1.yaml', 'e/vp1.yaml']})
+    out.append({'kind': 'run', 'tag': 'pydir', 'runs': [{'hops': [hop('vp0'), hop('vp1')], 'rootLoader': None, 'via': 'cli'}],
+                'files': ['w/pipelines/vp0.yaml', 'w/vp1.yaml']})
+    out.append({'kind': 'run', 'tag': 'pydir', 'runs': [{'hops': [hop('vp0'), hop('nope')], 'rootLoader': None, 'via': 'cli'}],
+                'files': ['w/vp0.yaml']})
+    # py_dir with a custom root loader (add_sys_path runs ahead of any loader)
+    out.append({'kind': 'run', 'tag': 'pydir', 'runs': [{'hops': [hop('vp0', pyDir='/R/e2'), hop('vp1', {'loader': FILE_LOADER})],
+                                                           'rootLoader': 'vloader'}], 'files': ['w/vp1.yaml']})
+    return out
+
+
+def shared_cases():
+    """the SAME module name next to several pipeline files (and in earlier sys.path entries): which file's code ran"""
+    out = []
+
+    def add(runs, files, **kw):
+        out.append({'kind': 'run', 'tag': 'shared', 'shared': True, 'runs': runs, 'files': files, **kw})
+    one = lambda *hops, pd=None: {'hops': [dict(hops[0], **({'pyDir': pd} if pd else {}))] + list(hops[1:]), 'rootLoader': None}
+    # control: one pipeline, one directory - the module next to it
+    add([one(hop('/R/e/vp0'))], ['e/vp0.yaml'])
+    add([one(hop('vp0'))], ['w/pipelines/vp0.yaml'])
+    # two root pipelines in different directories, one after the other in one process
+    add([one(hop('/R/e/vr0')), one(hop('/R/e2/vs0'))], ['e/vr0.yaml', 'e2/vs0.yaml'])
+    add([one(hop('/R/e2/vs0')), one(hop('/R/e/vr0')), one(hop('/R/e2/vs0'))], ['e/vr0.yaml', 'e2/vs0.yaml'])
+    # a child in another directory than its caller (found in the cwd; by absolute name; with an explicit parent)
+    add([one(hop('/R/e/vp0'), hop('vp1'))], ['e/vp0.yaml', 'w/vp1.yaml'])
+    add([one(hop('/R/e/vp0'), hop('/R/e2/vp1'))], ['e/vp0.yaml', 'e2/vp1.yaml'])
+    add([one(hop('/R/e/vp0'), hop('vp1', {'parent': '/R/e2'}), hop('vp2'))], ['e/vp0.yaml', 'e2/vp1.yaml', 'e2/vp2.yaml'])
+    # a child next to its caller: the same directory, the same module - fine
+    add([one(hop('/R/e/vp0'), hop('vp1'))], ['e/vp0.yaml', 'e/vp1.yaml', 'w/vp1.yaml'])
+    # --dir at its default (the cwd) with a same-named module in the cwd; py_dir elsewhere
+    add([one(hop('/R/e/vp0'), pd='/R/w')], ['e/vp0.yaml'], modules={'w': [SHARED]})
+    add([one(hop('/R/e/vp0'), pd='/R/e2')], ['e/vp0.yaml'], modules={'e2': [SHARED]})
+    add([one(hop('/R/e/vp0'), pd='/R/e2')], ['e/vp0.yaml'], modules={'e2': ['vother']})
+    # the command line as it is used: `pypyr /R/e/vp0` from a cwd that has a same-named module
+    add([dict(one(hop('/R/e/vp0')), via='cli')], ['e/vp0.yaml'], modules={'w': [SHARED]})
+    add([dict(one(hop('/R/e/vp0')), via='cli')], ['e/vp0.yaml'])
+    # the module name is taken by an entry that was on sys.path before pypyr started
+    add([one(hop('/R/e/vp0'))], ['e/vp0.yaml'], libmods=[SHARED])
+    return out
+
+
 def run_run_case(case, repo):
     root = Path(tempfile.mkdtemp(prefix='c19r')).resolve()
     try:
         build_run_tree(root, case)
-        out = run_subprocess(root, {'kind': 'run', 'name': conc(root, case['hops'][0]['name']),
-                                    'loader': case.get('rootLoader')}, repo)
+        runs = runs_of(case)
+        sc = {'kind': 'run', 'runs': [{'name': conc(root, r['hops'][0]['name']), 'loader': r.get('rootLoader'),
+                                       'py_dir': conc(root, r['hops'][0].get('pyDir')), 'via': r.get('via'),
+                                       'py_dir_form': r.get('pyDirForm', 'str')} for r in runs]}
+        out = run_subprocess(root, sc, repo)
         if out.get('timeout'):
             probe = run_subprocess(root, {'kind': 'paths', 'root': str(root), 'cases': []}, repo)
             if probe.get('timeout'):
                 raise common.Infra('C19 runner does not even start within the time limit')
-            out = dict(probe, trail=None, err='timeout', msg='the run did not return within 120 s', sys_path_added=[],
-                       sys_path_dups=[])
+            out = dict(probe, runs=[{'trail': None, 'err': 'timeout', 'msg': 'the run did not return within 120 s'}],
+                       sys_path_added=[], sys_path_dups=[])
         canon = Canon(root, out['builtin'])
         if canon(out['config_cwd']) != CWD:
             raise common.Infra(f'runner cwd is {out["config_cwd"]}')
         files, dirs = fs_of(root, canon)
-        # the trail is kept by lib/vtrail.py inside the subprocess; the runner returns ctx['trail'] only on
-        # success, so read both from the runner's output
-        impl = {'trail': [canon(t) for t in out['trail']] if out.get('trail') is not None else None,
-                'err': out['err'], 'msg': canon(out.get('msg')),
+        mods = mods_of(root, canon)
+        # the trail is kept by lib/vtrail.py inside the subprocess, per root run
+        impl = {'runs': [{'trail': [canon(t) for t in r['trail']] if r.get('trail') is not None else None,
+                          'err': r['err'], 'msg': canon(r.get('msg'))} for r in out['runs']],
                 'added': [canon(p) for p in out['sys_path_added']], 'dups': [canon(p) for p in out['sys_path_dups']]}
-        return case, files, dirs, impl
+        return case, files, dirs, mods, impl
     finally:
         shutil.rmtree(root, ignore_errors=True)
 
 
-def judge_run_case(env, res, case, files, dirs, impl):
+def judge_run_case(env, res, case, files, dirs, mods, impl):
     res.case(case)
-    res.count(f'run:depth{len(case["hops"]) - 1}')
-    for h in case['hops'][1:]:
-        for k in h['pype']:
-            res.count('pype:' + k)
-        if not h['pype']:
-            res.count('pype:defaults')
-    model = env.driver.ask('resolve.chain', cwd=CWD, builtin='/B', files=files, dirs=dirs,
-                           rootLoader=case.get('rootLoader'), custom=[['vloader', True, True], ['vloader_nc', False, False]],
-                           hops=case['hops'])
-    mtrail = []
-    for ld in model['loaded']:
-        if 'file' in ld:
-            f = ld['file']
-            if not f.startswith('/B/'):
-                mtrail.append(f'{f.rsplit("/", 1)[0][3:]}|{f[3:]}')
-        else:
-            l, n, p = ld['custom']
-            mtrail.append(f'custom:{l}:{n}:{p}')
-    m = {'trail': mtrail, 'err': 'PipelineNotFoundError' if model['err'] is not None else None, 'msg': model['err'],
-         'added': model['sysPath']}
-    i = {'trail': impl['trail'], 'err': impl['err'], 'msg': impl['msg'] if impl['err'] else None, 'added': impl['added']}
-    # monitors, from the property text
-    want = spec_chain(case, set(files), set(dirs))
-    sig = {'clause': 'resolve_first_existing', 'depth': len(case['hops']) - 1}
-    res.count('run:' + ('not-found' if want['err'] else 'found'))
-    if impl['err'] and 'ModuleNotFound' in impl['err']:
-        res.violation(case, f'a custom step module next to a loaded pipeline is not importable: {impl["msg"]}',
-                      signature=dict(sig, clause='sys_path_has_pipeline_dir'), impl=impl)
-    elif want['err']:
-        if impl['err'] != 'PipelineNotFoundError':
-            res.violation(case, f'{want["name"]} exists nowhere in its search order {want["searched"]}, yet: {impl}',
-                          signature=sig, impl=impl)
-        elif impl['trail'] != want['trail']:
-            res.violation(case, f'pipelines that ran: {impl["trail"]}, by the resolution order: {want["trail"]}',
-                          signature=dict(sig, clause='child_parent_default'), impl=impl)
-        elif not judge_not_found(impl['msg'], want['name'], want['searched']):
-            res.violation(case, f'not-found error does not list the searched places {want["searched"]}: {impl["msg"]!r}',
-                          signature=dict(sig, clause='not_found_lists_searched'), impl=impl)
-    else:
-        if impl['err'] or impl['trail'] != want['trail']:
-            res.violation(case, f'pipelines that ran: {impl["trail"]} (error {impl["err"]}: {impl["msg"]}), '
-                                f'by the resolution order: {want["trail"]}',
-                          signature=dict(sig, clause='child_parent_default' if len(case['hops']) > 1 else 'resolve_first_existing'),
-                          impl=impl)
-    if not impl['err'] or impl['err'] == 'PipelineNotFoundError':
-        missing = [d for d in want['added'] if d not in impl['added']]
-        if missing and not (impl['err'] and impl['trail'] != want['trail']):
-            res.violation(case, f'directories of loaded pipeline files missing from sys.path: {missing}',
+    runs = eff_runs(case)
+    links = [['/R/' + a, '/R/' + b] for a, b in case.get('links', [])]
+    fs = AbsFs(files, dirs, dict(links))
+    if any(r.get('via') == 'cli' for r in runs):
+        res.count('run:through-the-command-line')
+    res.count(f'run:depth{max(len(r["hops"]) for r in runs) - 1}')
+    if len(runs) > 1:
+        res.count('run:several-roots-one-process')
+    if links:
+        res.count('run:with-symlinks')
+    if case.get('shared'):
+        res.count('run:same-module-name-in-several-dirs')
+    for r in runs:
+        if r['hops'][0].get('pyDir'):
+            res.count('run:root-py_dir')
+        for h in r['hops'][1:]:
+            for k in pype_keys(h):
+                res.count('pype:' + k)
+            if not pype_keys(h):
+                res.count('pype:defaults')
+            if '..' in h['name']:
+                res.count('run:child-name-with-dotdot')
+    # ---- the model: Resolve.runChainR, every root run in the same process state -------------
+    # which module a pipeline file's first step imports: the one written into it by build_run_tree
+    def step_module(f):
+        return SHARED if case.get('shared') else 'vmod_' + (f.rsplit('/', 1)[0][3:].replace('/', '_') or 'root')
+    mruns = [{'rootLoader': r.get('rootLoader'),
+              'hops': [{'name': h['name'], 'pype': h['pype'], 'pyDir': h.get('pyDir')} for h in r['hops']]} for r in runs]
+    model = env.driver.ask('resolve.chains', runs=mruns, cwd=CWD, builtin='/B', files=files, dirs=dirs, links=links,
+                           mods=mods, sysPath0=['/R/lib'], stepMods=[[f, [step_module(f)]] for f in files if f.startswith('/R/')],
+                           custom=[['vloader', True, True], ['vloader_nc', False, False]])
+    for out in model['runs']:
+        res.count(f'run:pipelines-loaded:{len(out["loaded"])}')
+    m = {'runs': [], 'added': model['sysPath']}
+    for out in model['runs']:
+        mtrail = []
+        for ld in out['loaded']:
+            if 'file' in ld:
+                f = ld['file']
+                if not f.startswith('/B/'):
+                    imp = ld['imports'][0][1] if ld['imports'] else None
+                    if imp is not None:
+                        mtrail.append(f'{imp[3:]}|{f[3:]}')
+            else:
+                l, n, p = ld['custom']
+                mtrail.append(f'custom:{l}:{n}:{p}')
+        e = out['err']
+        kind = None if e is None else ('PyModuleNotFoundError' if e.startswith('module not found') else 'PipelineNotFoundError')
+        m['runs'].append({'trail': mtrail, 'err': kind, 'msg': e if kind == 'PipelineNotFoundError' else None})
+    i = {'runs': [{'trail': r['trail'], 'err': r['err'], 'msg': r['msg'] if r['err'] == 'PipelineNotFoundError' else None}
+                  for r in impl['runs']], 'added': impl['added']}
+    # ---- monitors, from the property text ----------------------------------------------------
+    added = []
+    for k, (run, ir) in enumerate(zip(runs, impl['runs'])):
+        want = spec_chain(run, fs, added)
+        depth = len(run['hops']) - 1
+        sig = {'clause': 'resolve_first_existing', 'depth': depth}
+        res.count('run:' + ('not-found' if want['err'] else 'found'))
+        ran, want_ran = files_of_trail(ir['trail']), files_of_trail(want['trail'])
+        if ir['err'] and 'ModuleNotFound' in ir['err']:
+            res.violation(case, f'a custom step module next to a loaded pipeline is not importable: {ir["msg"]}',
                           signature=dict(sig, clause='sys_path_has_pipeline_dir'), impl=impl)
+            continue
+        if want['err']:
+            if ir['err'] != 'PipelineNotFoundError':
+                res.violation(case, f'{want["name"]} exists nowhere in its search order {want["searched"]}, yet: {ir}',
+                              signature=sig, impl=impl)
+            elif ran != want_ran:
+                res.violation(case, f'pipelines that ran: {ran}, by the resolution order: {want_ran}',
+                              signature=dict(sig, clause='child_parent_default'), impl=impl)
+            elif not judge_not_found(ir['msg'], want['name'], want['searched']):
+                res.violation(case, f'not-found error does not list the searched places {want["searched"]}: {ir["msg"]!r}',
+                              signature=dict(sig, clause='not_found_lists_searched'), impl=impl)
+        else:
+            if ir['err'] or ran != want_ran:
+                res.violation(case, f'pipelines that ran: {ran} (error {ir["err"]}: {ir["msg"]}), '
+                                    f'by the resolution order: {want_ran}',
+                              signature=dict(sig, clause='child_parent_default' if depth > 0 else 'resolve_first_existing'),
+                              impl=impl)
+        # "custom step modules located next to any loaded pipeline file are importable BY THAT PIPELINE": the step of
+        # the pipeline file f must have been served by the module file in f's own directory
+        if ran == want_ran:
+            for t in ir['trail'] or []:
+                if t.startswith('custom:'):
+                    continue
+                moddir, f = t.split('|', 1)
+                fdir = f.rsplit('/', 1)[0]
+                if moddir != fdir:
+                    earlier_run = any(x.split('|', 1)[0] == moddir for rr in impl['runs'][:k] for x in (rr['trail'] or [])
+                                      if not x.startswith('custom:'))
+                    earlier_hop = any(x.split('|', 1)[0] == moddir for x in (ir['trail'] or [])[:(ir['trail'] or []).index(t)]
+                                      if not x.startswith('custom:'))
+                    by = 'sys.modules' if (earlier_run or earlier_hop) else 'sys.path-earlier-entry'
+                    res.violation(case, f'pipeline {f} ran, but its step module {SHARED} was served from /{moddir}, not from the '
+                                        f'module next to it in /{fdir} (same module name in both; bound through {by})',
+                                  signature={'clause': 'sibling_module_importable', 'cause': 'shadowed-by-same-name', 'by': by},
+                                  impl=impl)
+                    break
+    if all((not r['err']) or r['err'] == 'PipelineNotFoundError' for r in impl['runs']):
+        missing = [d for d in added if d not in impl['added']]
+        if missing and all(files_of_trail(r['trail']) == files_of_trail(spec_chain(run, fs, [])['trail'])
+                           for run, r in zip(runs, impl['runs'])):
+            res.violation(case, f'directories of loaded pipeline files missing from sys.path: {missing}',
+                          signature={'clause': 'sys_path_has_pipeline_dir', 'depth': len(runs[0]['hops']) - 1}, impl=impl)
     if impl['dups']:
-        res.violation(case, f'sys.path holds {impl["dups"]} more than once', signature=dict(sig, clause='sys_path_once'), impl=impl)
+        res.violation(case, f'sys.path holds {impl["dups"]} more than once',
+                      signature={'clause': 'sys_path_once', 'depth': len(runs[0]['hops']) - 1}, impl=impl)
     if m != i:
         res.mismatch(case, m, i)
 
@@ -808,12 +1216,31 @@ def judge_seq_case(env, res, case, dirs, impl):
 # entry points
 # ---------------------------------------------------------------------------------------------
 
+def cli_dir_default(repo):
+    """pypyr/cli.py: the `default=` of the --dir / py_dir argument, as source text"""
+    import ast
+    tree = ast.parse((Path(repo) / 'pypyr' / 'cli.py').read_text())
+    for n in ast.walk(tree):
+        if (isinstance(n, ast.Call) and isinstance(n.func, ast.Attribute) and n.func.attr == 'add_argument'
+                and any(isinstance(a, ast.Constant) and a.value == '--dir' for a in n.args)):
+            kw = {k.arg: ast.unparse(k.value) for k in n.keywords}
+            return kw.get('dest'), kw.get('default')
+    return None, None
+
+
 def run(env, res):
     repo = common.REPO
+    if cli_dir_default(repo) != ("'py_dir'", 'config.cwd'):
+        res.mismatch({'static': 'pypyr/cli.py --dir'}, {'dest': "'py_dir'", 'default': 'config.cwd'}, cli_dir_default(repo),
+                     'the command line no longer hands the cwd to py_dir by default')
     res.rule = ('paths: every subset of the candidate locations (parent dir, cwd, cwd/pipelines; built-in via the name '
-                'donothing) x 5 name forms x 7 parents x Path/str, through get_pipeline_path; run: all depth-0 layouts, '
+                'donothing) x 5 name forms x 7 parents x Path/str, through get_pipeline_path; + symlinked directories / files, `..` in '
+                'names and parents, relative parents before and after os.chdir. run: all depth-0 layouts, '
                 'depth-1 = 5 root placements x 4 child name forms x 13 pype option sets x every subset of the child\'s '
-                'candidate locations (thorough: all; quick: seeded slice), depth-2 random chains incl. custom loaders. '
+                'candidate locations (thorough: all; quick: seeded slice), depth-2 random chains incl. custom loaders, directed and random '
+                'chains of 3-6 hops (name forms incl. ../x, steering keys, pyDir), symlinked pipeline files / directories / cwd entries, '
+                'py_dir (none, cwd, other, missing; str / Path; on children), the same step-module name in several directories '
+                '(two roots in one process, child elsewhere than its caller, py_dir = cwd, interpreter sys.path entry). '
                 'seq: SEQUENCES of 2-10 look-ups in ONE process with warm caches (name forms plain, dir/name, absolute, '
                 'with +, with ..; parents none, dir, dir/sub, cwd; through new and re-used Pipeline objects, Pipeline.run, '
                 'pipelinerunner.run and a real pype step; with file-system changes, clear_all and no_cache in between): all ordered '
@@ -829,7 +1256,9 @@ def run(env, res):
     if env.quick:   # all layouts of the default case (no steering keys) + a seeded slice of the rest
         d1 = [c for c in d1 if not c['hops'][1]['pype']] + env.rng.sample([c for c in d1 if c['hops'][1]['pype']], 350)
     runs += d1
-    runs += [random_depth2(env.rng) for _ in range(env.n(250, 2500))]
+    runs += [random_depth2(env.rng) for _ in range(env.n(200, 2500))]
+    runs += directed_deep() + symlink_cases() + pydir_cases() + shared_cases()
+    runs += [random_deep(env.rng) for _ in range(env.n(80, 600))]
     seqs = seq_cases_directed(env.rng, env.quick)
     seqs += seq_cases_pairs(env.rng, env.n(3, 2), env.n(120, None))
     seqs += [seq_case_random(env.rng) for _ in range(env.n(150, 1000))]
@@ -864,6 +1293,6 @@ def replay(env, res, payload):
         judge_seq_case(env, res, c, dirs, impl)
         res.extra['replayed'] = impl
     else:
-        c, files, dirs, impl = run_run_case(case, common.REPO)
-        judge_run_case(env, res, c, files, dirs, impl)
+        c, files, dirs, mods, impl = run_run_case(case, common.REPO)
+        judge_run_case(env, res, c, files, dirs, mods, impl)
         res.extra['replayed'] = impl
